@@ -216,6 +216,8 @@ AllCfgs == {c \in Cfgs : c.strategy = "opaque"}
 BuilderCfgs == {c \in AllCfgs : c.graffiti /\ c.auctioneer /\ ~c.unblindAll /\ ~c.nodeclient}
 \* the auction as a component: each sibling strategy behind the block relay, every set of configured relays
 WiredCfgs == {c \in Cfgs : c.strategy # "opaque" /\ c.graffiti /\ ~c.nodeclient}
+\* ... with at least one relay configured and unblinding with the winners (for the configurations with overlap)
+WiredOneCfgs == {c \in WiredCfgs : c.conf # {} /\ ~c.unblindAll}
 
 CleanPipeline ==
     /\ pc = "start"
